@@ -262,8 +262,13 @@ DomSufx  == [origin |-> "o.r1w", rpid |-> "com", rp |-> "com", dom |-> "InvalidR
 DomOther == [origin |-> "o.r2", rpid |-> "r1", rp |-> "r1", dom |-> "OriginRpMissmatch"]
 DomLocal == [origin |-> "o.local", rpid |-> "absent", rp |-> "localhost", dom |-> "InsecureLocalhostNotAllowed"]
 DomIp    == [origin |-> "o.ip", rpid |-> "absent", rp |-> "none", dom |-> "OriginMissingDomain"]
-DomsOk  == {DomOk1, DomOk1p, DomHost, DomOk2}
-DomsBad == {DomEvil, DomHttp, DomSufx, DomOther, DomLocal, DomIp}
+\* Android application origins: the asset-link host plays the role of the origin host, no scheme requirement, and
+\* clientDataJSON.origin is android:apk-key-hash:<fingerprint>
+DomAnd1    == [origin |-> "o.and.r1", rpid |-> "absent", rp |-> "r1", dom |-> "ok"]
+DomAnd1w   == [origin |-> "o.and.r1w", rpid |-> "r1", rp |-> "r1", dom |-> "ok"]
+DomAndEvil == [origin |-> "o.and.evil", rpid |-> "r1", rp |-> "r1", dom |-> "OriginRpMissmatch"]
+DomsOk  == {DomOk1, DomOk1p, DomHost, DomOk2, DomAnd1, DomAnd1w}
+DomsBad == {DomEvil, DomHttp, DomSufx, DomOther, DomLocal, DomIp, DomAndEvil}
 
 BaseCReq ==
     [BaseReq EXCEPT !.rp = "r1"] @@
@@ -305,7 +310,7 @@ C03c_Cers ==
          Cer("client", "mc", [WithDom(BaseCReq, DomOk2) EXCEPT !.user = "u2", !.residentKey = "required"], BaseEnv),
          Cer("client", "ga", [WithDom(BaseCReq, d) EXCEPT !.allow = a, !.allowGiven = g, !.uvreq = u, !.cdmode = m, !.chal = ch],
              [BaseEnv EXCEPT !.uv = UvOk(TRUE, u # "discouraged")]) >> :
-        rk \in {"discouraged", "required"}, d \in {DomOk1, DomHost, DomOk2, DomEvil, DomHttp},
+        rk \in {"discouraged", "required"}, d \in {DomOk1, DomHost, DomOk2, DomEvil, DomHttp, DomAnd1w, DomAndEvil},
         a \in {<<>>, <<"n1">>, <<"n2">>, <<"x1">>, <<"n2", "n1">>}, g \in BOOLEAN,
         u \in {"required", "discouraged"}, m \in {"default", "extra", "hash", "hash20", "hash64"}, ch \in {"c0", "c32"} }
 
@@ -357,9 +362,23 @@ C09c_Cers ==
     \cup
     { << Cer("client", "ga", [WithCprf(BaseCReq, c) EXCEPT !.allowGiven = FALSE], BaseEnv) >> : c \in C09c_AuthPrfs }
 
+\* descriptors whose credential type the library does not know, through the client: the allow / exclude list means
+\* the same (a list that matches nothing does not fall back to "any credential")
+C03c_UnkCers ==
+    { << Cer("client", "mc", [WithDom(BaseCReq, DomOk1) EXCEPT !.user = "u1", !.residentKey = rk], BaseEnv),
+         Cer("client", "mc", [WithDom(BaseCReq, DomOk2) EXCEPT !.user = "u2", !.residentKey = "required"], BaseEnv),
+         Cer("client", "ga", [WithDom(BaseCReq, DomOk1) EXCEPT !.allow = a, !.allowGiven = TRUE, !.unkType = TRUE], BaseEnv) >> :
+        rk \in {"discouraged", "required"}, a \in {<<"x1">>, <<"n1">>, <<"n2">>, <<"n2", "n1">>, <<"x1", "x2">>} }
+C02c_UnkCers ==
+    { << Cer("client", "mc", [WithDom(BaseCReq, DomOk1) EXCEPT !.user = "u1", !.residentKey = "required"], BaseEnv),
+         Cer("client", "mc", [WithDom(BaseCReq, d) EXCEPT !.user = "u2", !.exclude = x, !.excludeGiven = TRUE, !.unkType = TRUE], BaseEnv) >> :
+        d \in {DomOk1, DomOk2}, x \in {<<"n1">>, <<"x1">>, <<"x1", "n1">>} }
+
 \* reduced client configurations for the quick tier
-C03cq_Cers == { c \in C03c_Cers : c[3].req.chal = "c32" /\ c[3].req.cdmode # "extra" /\ c[1].req.residentKey = "required" }
-C02cq_Cers == { c \in C02c_Cers : Len(c) = 3 \/ c[1].req.chal \in {"c0", "c32"} }
+C03cq_Cers == { c \in C03c_Cers : c[3].req.chal = "c32" /\ c[3].req.cdmode # "extra" /\ c[1].req.residentKey = "required" } \cup C03c_UnkCers
+C02cq_Cers == { c \in C02c_Cers : Len(c) = 3 \/ c[1].req.chal \in {"c0", "c32"} } \cup C02c_UnkCers
+C03ct_Cers == C03c_Cers \cup C03c_UnkCers
+C02ct_Cers == C02c_Cers \cup C02c_UnkCers
 
 -----------------------------------------------------------------------------
 (* C18: getInfo through both APIs                                           *)
